@@ -18,7 +18,8 @@ CLAIMED = {
     ),
     "C17": dict(
         text="spec/Syntax.tla generates every component tree of the documented match grammar up to nesting depth 1 over a lexicon containing every "
-        "token kind, with its token sequence; TLC enumerates them (two trees with one token sequence = an ambiguity of the documented grammar). "
+        "token kind (plain, indexed, qualified and quoted headers incl. quoted names with blanks and dots; variables; terms; references in the four "
+        "positions the grammar gives them; functions of arity 0-3), with its token sequence; TLC enumerates them (two trees with one token sequence = an ambiguity of the documented grammar). "
         "Every tree is written out and parsed for real: no _ambig node in the Lark tree, and the projected component tree (kinds, names, qualifiers, "
         "operators, argument order, literal values) must equal the emitted one. Sequences of trees under 4 random layouts each (whitespace, newlines, "
         "~comments~ between components, outer comments without mode settings) must project identically; every function name of the factory is "
@@ -33,7 +34,7 @@ CLAIMED = {
         "(process-global registries reset, disk cache kept), ClearCache; HistoryFree (a job's result is a function of the job alone) checked by "
         "TLC; every emitted history is replayed with one fresh python interpreter per process segment sharing a scratch cache directory, each "
         "job's full result tuple (lines, variables, printouts, errors, verdict, counters, headers) compared with the same job run first in a fresh "
-        "process with an empty cache; files have header cells with quotes, delimiters and blanks.",
+        "process with an empty cache; files have header cells with quotes, delimiters, blanks and names on which header cleaning is not idempotent.",
         note="Trusted: TLC; subprocess isolation; PYTHONHASHSEED fixed. Histories with a warm-cache/not-in-memory job are prioritised. One CsvPaths instance per process.",
         technique="TLA+ history spec model-checked with TLC; TLC-generated histories replayed with real interpreter processes",
         ref="7 (C19)",
@@ -71,7 +72,8 @@ CLAIMED = {
         "$name.variables.v[.key] / $name.headers.h reference evaluates to RefExpected over the referenced member's most recent run (1-3 runs, "
         "data changed between runs), and a results reference used as file name replays the referenced data.csv. Each stage's behaviour on the "
         "required input is validated by RunTrace.",
-        note="Trusted: TLC; the referenced group has one member. Known finding: a preceding member whose predecessor collected nothing aborts with FileNotFoundError.",
+        note="Trusted: TLC. Variable references also go to two-member groups whose members assign the same variable (the later member's value: docs/variables.md); "
+        "header references and replays go to one-member groups over ragged data; the group that replays a results reference is itself a chain of 1-3 members. Known finding: a preceding member whose predecessor collected nothing aborts with FileNotFoundError.",
         technique="TLA+ chain spec model-checked with TLC; recorded stage inputs and reference values validated by TLC against the spec",
         ref="7 (C20)",
     ),
@@ -181,15 +183,21 @@ CLAIMED = {
     "C04": dict(
         text="Trace validation of generated csvpaths with conditional fail()/fail_and_stop()/failed()/valid(): the is_valid bit "
         "logged after every line must equal the specification's; ValidityMonotone is checked by TLC as an action property on "
-        "every validated trace. (The named-paths aggregation part is checked by C09's machinery once built.)",
-        note="Trusted as C01. Error-policy 'fail' is covered by C05.",
-        technique="trace validation against the TLA+ run machine; TLC action property ValidityMonotone",
+        "every validated trace; MC_Run's closed pool (all behaviours, terminal states replayed into the real CsvPath) is judged on the "
+        "verdict. Aggregation: named-paths groups with failing members under all six run methods are validated by ArchiveTrace (member "
+        "manifests' valid, the run manifest's all_valid and ResultsManager.is_valid(name) are the conjunction of the members' verdicts). "
+        "fail_all(): groups whose members raise the cross-path signals are validated by the joint machine spec/GroupRun.tla (concrete members, "
+        "coordinator rules of the serial and line-major schedules); C04 judges validity per line, the final verdicts and all_valid.",
+        note="Trusted as C01. Error-policy 'fail' is covered by C05. The coordinator rules of GroupRun.tla mirror the code where the only documentation is a docstring (spec/CHOICES.md).",
+        technique="trace validation against the TLA+ run machine and the joint group machine; TLC action properties ValidityMonotone / GroupValidityMonotone; closed pool model-checked and replayed",
         ref="7 (C04)",
     ),
     "C07": dict(
         text="Each generated case is run with collect(), next(), fast_forward() and collect(nexts=n) for n in 1..matches+1; "
         "every trace and final state must be accepted by the same deterministic run machine (RunTrace.tla), which makes the "
-        "runs equal and makes collect(nexts=n) a prefix with no later side effect (the spec's Step stops at the n-th returned line).",
+        "runs equal and makes collect(nexts=n) a prefix with no later side effect (the spec's Step stops at the n-th returned line). "
+        "The generated programs include the line-rewriting functions (replace, append, collect): the delivered cells are then those the "
+        "specification computes (st.line, st.headers, st.limit), for every method.",
         note="Trusted as C01. _freeze_path after an abandoned generator is not judged.",
         technique="trace validation of four entry points against one deterministic TLA+ run machine",
         ref="7 (C07)",
